@@ -4,8 +4,8 @@ A case is 1..4 small generated flows of mixed types (lib/flowgen.py) and a way o
   * "save":   the Save addon's explicit `save.file` command writes flows[:k] to a fresh file and appends flows[k:] with
               the "+path" form (k generated; k == n means a single save);
   * "stream": the Save addon in stream mode (save_stream_file) receives a generated interleaving of the flows' start
-              and completion hooks (request/response|error, websocket_end, tcp/udp start/end|error, dns request/
-              response|error); after EVERY hook the file is read back from disk through a second descriptor and must
+              and completion hooks (request/response|error, or error alone for an HTTP exchange that fails before its
+              request hook: requestheaders -> error; websocket_end, tcp/udp start/end|error, dns request/response|error); after EVERY hook the file is read back from disk through a second descriptor and must
               parse completely, without error, to exactly the flows completed so far (so a missing flush is seen);
               flows still open at the end are written by done().
 Then EVERY byte offset 0..len(file) of the produced file is used as a crash point: the prefix is loaded with
@@ -61,6 +61,9 @@ def record_ends(data):
     return ends
 
 
+_START_HOOKS = ("request", "tcp_start", "udp_start", "dns_request")
+
+
 def _hooks_for(kind, with_error):
     """(start hook name, completion hook name) for a flow kind"""
     if kind == "http":
@@ -86,6 +89,7 @@ def strategy(ctx):
                                     "sched": st.lists(st.integers(0, 7), min_size=8, max_size=8),
                                     "errors": st.lists(st.booleans(), min_size=4, max_size=4),
                                     "complete": st.lists(st.booleans(), min_size=4, max_size=4),
+                                    "early_error": st.lists(st.sampled_from([False, False, True]), min_size=4, max_size=4),
                                     "append": st.booleans()})
     return st.one_of(save, stream)
 
@@ -192,12 +196,21 @@ def _run_stream(case, descs, flows, sa, tctx, path, ctx):
     # event list: per flow a start and (optionally) a completion; schedule = generated interleaving that keeps
     # start before completion for every flow
     pending = []
+    open_at_stop = []
+    early = case.get("early_error", [False] * 4)
     for i in range(n):
         kind = fg.kind_of(descs[i])
         start, end = _hooks_for(kind, case["errors"][i % 4])
-        evs = [(i, start)]
-        if case["complete"][i % 4] or i == 0:
-            evs.append((i, end))
+        if kind == "http" and early[i % 4]:
+            # the exchange fails while the request is still being read (requestheaders -> error): the Save addon
+            # never sees a request hook, the flow's only hook is its completion
+            evs = [(i, "error")]
+        else:
+            evs = [(i, start)]
+            if case["complete"][i % 4] or i == 0:
+                evs.append((i, end))
+        if evs[-1][1] in _START_HOOKS:
+            open_at_stop.append(i)
         pending.append(evs)
     expected = list(prior)
     step = 0
@@ -207,7 +220,7 @@ def _run_stream(case, descs, flows, sa, tctx, path, ctx):
         step += 1
         i, hook = p.pop(0)
         getattr(sa, hook)(flows[i])
-        if not p and hook not in ("request", "tcp_start", "udp_start", "dns_request"):
+        if hook not in _START_HOOKS:
             expected.append(fg.listify(flows[i].get_state()))
         # the file as another process would see it right now
         with open(path, "rb") as fh:
@@ -229,14 +242,9 @@ def _run_stream(case, descs, flows, sa, tctx, path, ctx):
         ctx.fail("stream-file-unreadable-after-stop", repr(outcome))
         return None
     tail = [fg.listify(g.get_state()) for g in got[len(expected):]]
-    want = [fg.listify(flows[i].get_state()) for i in range(n) if len(_events_left(case, descs, i)) == 1]
+    want = [fg.listify(flows[i].get_state()) for i in open_at_stop]
     if [fg.listify(g.get_state()) for g in got[:len(expected)]] != expected or sorted(map(fg.canon_repr, tail)) != sorted(map(fg.canon_repr, want)):
         ctx.fail("stream-file-wrong-after-stop", "%d records after stop, expected %d completed + %d open" % (len(got), len(expected), len(want)))
         return None
     ctx.cls("stream:open-at-stop", len(want))
     return expected + tail
-
-
-def _events_left(case, descs, i):
-    """events generated for flow i (1 = only the start hook, i.e. open at stop)"""
-    return [0] if not (case["complete"][i % 4] or i == 0) else [0, 1]
